@@ -13,12 +13,92 @@
 //   Hang{..}                       a call did not return in time (exit code 4)
 // Judged by spec/Trace_RingA.tla.
 // usage: h_ring --prim mpmc|batch|spsc|chan|wrap [--wrap4] --execs N --seed S --vcpus V --threads K --ops M --out file
+//
+// Schedule points without touching the header: common/lockfree_queue.h is compiled UNCHANGED, but while it is being included
+// the tokens memory_order_acquire / _release / _acq_rel / _seq_cst / _relaxed are macros that first call vtr::hook(kind) and
+// then yield the same order as a run-time value (GCC then uses the strongest order, never a weaker one).  Every atomic load /
+// store / RMW / fence of the header that names its order is therefore preceded by a schedule point (the two index CAS of the
+// MPMC queue use the default order and have none; the acquire loads right before them have).  A hook (a) delays the calling OS
+// thread by a small seeded random amount (bounded spin / sched_yield; it never blocks and never switches photon threads), which
+// widens the windows between two atomic operations of one call, and (b) implements the gate of the directed scenarios: a named
+// photon thread is held (bounded) at its n-th hook of one kind until the partner call has returned.
 #include "vt_photon.h"
 #include <photon/thread/thread.h>
-#include <photon/common/lockfree_queue.h>
+#include <photon/common/timeout.h>
+#include <photon/common/utility.h>
+#include <atomic>
+#include <cstddef>
+#include <cstdint>
+#include <cstdlib>
 #include <memory>
 #include <cstring>
+#include <thread>
+#include <type_traits>
+#include <utility>
 #include <chrono>
+#ifndef __aarch64__
+#include <immintrin.h>
+#endif
+
+namespace vtr {
+enum { H_ACQ = 1, H_REL = 2, H_ACQREL = 3, H_SEQ = 4, H_RLX = 5 };
+struct Gate {
+    std::atomic<int> tid{0};          // id of the photon thread to hold (0 = not armed)
+    int kind = 0, nth = 0;
+    std::atomic<int> seen{0};
+    std::atomic<bool> reached{false}, release{false}, dropped{false};
+};
+inline Gate& gate() { static Gate g; return g; }
+inline std::atomic<int>& level() { static std::atomic<int> l{0}; return l; }       // 0 = no random delays
+inline std::atomic<uint64_t>& seed() { static std::atomic<uint64_t> s{1}; return s; }
+inline void arm(int tid, int kind, int nth) {
+    auto& g = gate(); g.kind = kind; g.nth = nth; g.seen = 0; g.reached = false; g.release = false; g.dropped = false; g.tid = tid;
+}
+inline void disarm() { gate().tid = 0; gate().release = true; }
+inline void perturb(int kind) {
+    if (!level().load(std::memory_order_relaxed)) return;
+    static thread_local uint64_t s = 0;
+    if (!s) s = seed().load() * 0x9E3779B97F4A7C15ull + (uint64_t)pthread_self() + 1;
+    s ^= s << 13; s ^= s >> 7; s ^= s << 17;
+    unsigned r = (unsigned)(s & 0xff), boost = (kind == H_REL || kind == H_SEQ) ? 2 : 1;     // publication stores and the Dekker RMWs
+    if (r >= 40 * boost) return;
+    if (r < 26 * boost) { for (volatile int i = 0; i < (int)((s >> 8) & 0x1ff); i++) {} return; }
+    if (r < 34 * boost) { sched_yield(); return; }
+    for (volatile int i = 0; i < 30000; i++) {}
+}
+inline int hook(int kind) {
+    auto& g = gate();
+    int tid = g.tid.load(std::memory_order_relaxed);
+    if (tid && kind == g.kind && photon::CURRENT && vtp::reg().get(photon::CURRENT) == tid && g.seen.fetch_add(1) + 1 == g.nth) {
+        g.reached = true;
+        for (uint64_t i = 0; !g.release.load(); i++) {          // bounded: a gate that is not released in time is dropped
+            if (i > 300000) { g.dropped = true; break; }
+            for (volatile int j = 0; j < 200; j++) {}
+            if ((i & 255) == 255) sched_yield();
+        }
+        return 0;
+    }
+    perturb(kind);
+    return 0;
+}
+inline int o_acq() { hook(H_ACQ); return (int)std::memory_order_acquire; }
+inline int o_rel() { hook(H_REL); return (int)std::memory_order_release; }
+inline int o_acqrel() { hook(H_ACQREL); return (int)std::memory_order_acq_rel; }
+inline int o_seq() { hook(H_SEQ); return (int)std::memory_order_seq_cst; }
+inline int o_rlx() { hook(H_RLX); return (int)std::memory_order_relaxed; }
+}  // namespace vtr
+
+#define memory_order_acquire memory_order(vtr::o_acq())
+#define memory_order_release memory_order(vtr::o_rel())
+#define memory_order_acq_rel memory_order(vtr::o_acqrel())
+#define memory_order_seq_cst memory_order(vtr::o_seq())
+#define memory_order_relaxed memory_order(vtr::o_rlx())
+#include <photon/common/lockfree_queue.h>
+#undef memory_order_acquire
+#undef memory_order_release
+#undef memory_order_acq_rel
+#undef memory_order_seq_cst
+#undef memory_order_relaxed
 using namespace photon;
 
 static int g_vcpus = 3, g_threads = 4, g_ops = 8, g_execs = 50;
